@@ -1,4 +1,85 @@
+(* C16 - No request crashes the API or earns a 5xx; client errors are structured 4xx.
+   Only the property theorems, each closed by `exact`.  Model: theories/Http.v
+   ([respond] = the handlers as found, [respond_fixed] = with build/proposed-fixes/C16-1..6 applied,
+   [respond_gen fx] = with the subset [fx] of the six call sites repaired; [env] = the abstract store). *)
 From Coq Require Import ZArith List.
-From BHS Require Import Http.
-Theorem C16_placeholder : forall c, 400 <= status_of c. Proof. destruct c; cbn; discriminate. Qed.
-Print Assumptions C16_placeholder.
+From BHS Require Import Http HttpProofs.
+Import ListNotations.
+Open Scope Z_scope.
+
+(* c16_ok q r :  status is 200/201/204 or 4xx  /\  the body is exactly one JSON document
+                 /\ from 400 on that document carries code and message  /\ the header store is untouched
+                 /\ tokens/webhooks change only on a successful call of a route that exists to change them *)
+
+(* MAIN, for the repaired handlers: every request, every store view with a tip. *)
+Theorem C16_main : forall (e : env) (q : request), e_tip e = true -> c16_ok q (respond_fixed e q).
+Proof. exact fixed_ok. Qed.
+
+(* The same for ANY subset of repaired call sites: the property holds for every request that is not in the
+   class of an unrepaired site - this is the theorem that covers the tree at HEAD ([current_fixes]). *)
+Theorem C16_main_modulo_sites : forall (fx : fixes) (e : env) (q : request),
+  e_tip e = true ->
+  (forall s, defect_site e q = Some s -> fix_on fx s = true) ->
+  c16_ok q (respond_gen fx e q).
+Proof. exact general_ok. Qed.
+
+(* The handlers as found: the property fails EXACTLY on the six listed call-site classes. *)
+Theorem C16_as_found_exact : forall (e : env) (q : request),
+  e_tip e = true -> (c16_ok q (respond e q) <-> defect_site e q = None).
+Proof. exact exact. Qed.
+
+(* The header store is never touched, whatever is repaired. *)
+Theorem C16_headers_untouched : forall fx e q, r_eff (respond_gen fx e q) <> EffHeaders.
+Proof. exact headers_untouched. Qed.
+
+(* The executable spec oracle applied to the implementation's responses decides c16_ok. *)
+Theorem C16_oracle_decides : forall q r, check q r = None <-> c16_ok q r.
+Proof. exact check_iff. Qed.
+
+(* The hypotheses are satisfiable on a store with a fork, a stale block and orphans; a non-trivial request. *)
+Example C16_main_example :
+  e_tip ex_env = true
+  /\ get_common_ancestor ex_env [HK 3%nat; HK 4%nat] = CAHeader 1%nat
+  /\ c16_ok (Q AuthOff (CCommon (SList [HK 3%nat; HK 4%nat]))) (respond_fixed ex_env (Q AuthOff (CCommon (SList [HK 3%nat; HK 4%nat])))).
+Proof. exact (conj ex_env_tip (conj ex_common_fork ex_fixed_ok)). Qed.
+
+(* FALSE TODAY: one refutation per call site (witness evaluated by vm_compute in HttpProofs.v). *)
+Theorem C16_byheight_refuted :       (* height missing -> 500 *)
+  ~ c16_ok (Q AuthOff (CByHeight IMissing IMissing)) (respond ex_env (Q AuthOff (CByHeight IMissing IMissing))).
+Proof. exact byheight_refuted. Qed.
+Theorem C16_byheight_junk_refuted :  (* height not a number, even with the admin token -> 500 *)
+  ~ c16_ok (Q AuthAdmin (CByHeight IJunk (INum 1))) (respond ex_env (Q AuthAdmin (CByHeight IJunk (INum 1)))).
+Proof. exact byheight_junk_refuted. Qed.
+Theorem C16_common_empty_refuted :   (* commonAncestor [] -> 500, empty body *)
+  ~ c16_ok (Q AuthOff (CCommon (SList []))) (respond ex_env (Q AuthOff (CCommon (SList [])))).
+Proof. exact common_empty_refuted. Qed.
+Theorem C16_common_genesis_refuted : (* a list containing genesis -> 500, empty body *)
+  ~ c16_ok (Q AuthOff (CCommon (SList [HK 3%nat; HK 0%nat]))) (respond ex_env (Q AuthOff (CCommon (SList [HK 3%nat; HK 0%nat])))).
+Proof. exact common_genesis_refuted. Qed.
+Theorem C16_webhook_bind_refuted :   (* non-JSON webhook body -> two concatenated JSON objects *)
+  ~ c16_ok (Q AuthOff (CWhPost (WBad BadSyntax))) (respond ex_env (Q AuthOff (CWhPost (WBad BadSyntax)))).
+Proof. exact webhook_bind_refuted. Qed.
+Theorem C16_webhook_partial_refuted : (* url bound, another field of the wrong type -> 400 AND the webhook is stored *)
+  ~ c16_ok (Q AuthOff (CWhPost (WPartial UNew))) (respond ex_env (Q AuthOff (CWhPost (WPartial UNew)))).
+Proof. exact webhook_partial_refuted. Qed.
+Theorem C16_verify_bind_refuted :    (* verify with a non-JSON body -> 400 whose body is a bare string *)
+  ~ c16_ok (Q AuthOff (CVerify (VBad BadSyntax))) (respond ex_env (Q AuthOff (CVerify (VBad BadSyntax)))).
+Proof. exact verify_bind_refuted. Qed.
+Theorem C16_access_get_refuted :     (* GET /access with auth disabled -> 400 with an empty body *)
+  ~ c16_ok (Q AuthOff CAccGet) (respond ex_env (Q AuthOff CAccGet)).
+Proof. exact access_get_refuted. Qed.
+
+Print Assumptions C16_main.
+Print Assumptions C16_main_modulo_sites.
+Print Assumptions C16_as_found_exact.
+Print Assumptions C16_headers_untouched.
+Print Assumptions C16_oracle_decides.
+Print Assumptions C16_main_example.
+Print Assumptions C16_byheight_refuted.
+Print Assumptions C16_byheight_junk_refuted.
+Print Assumptions C16_common_empty_refuted.
+Print Assumptions C16_common_genesis_refuted.
+Print Assumptions C16_webhook_bind_refuted.
+Print Assumptions C16_webhook_partial_refuted.
+Print Assumptions C16_verify_bind_refuted.
+Print Assumptions C16_access_get_refuted.
